@@ -229,3 +229,35 @@ theorem const_key_append_perm {V} (c : Nat) (l l' : List (Nat × V)) (h : l.Perm
   | [_], _ :: _ :: _, _, _, h2 => simp at h2
 
 end Gomjml.MapIter
+
+namespace Gomjml.MapIter
+
+/-- `MJMLNode.GetAttribute` (first match wins) does not depend on the order of the attributes of a tag, because an XML
+    start tag cannot carry the same attribute name twice -/
+theorem lookup_perm {V} (l l' : List (String × V)) (h : l.Perm l') (nd : (l.map Prod.fst).Nodup) (n : String) :
+    l.lookup n = l'.lookup n := by
+  induction h with
+  | nil => rfl
+  | cons x _ ih =>
+    obtain ⟨k, b⟩ := x
+    simp only [List.map_cons, List.nodup_cons] at nd
+    simp only [List.lookup]
+    cases n == k
+    · exact ih nd.2
+    · rfl
+  | swap x y l =>
+    obtain ⟨kx, bx⟩ := x
+    obtain ⟨ky, b_y⟩ := y
+    simp only [List.map_cons, List.nodup_cons, List.mem_cons, not_or] at nd
+    have hxy : ¬ ky = kx := nd.1.1
+    simp only [List.lookup]
+    cases h1 : n == ky <;> cases h2 : n == kx <;> simp
+    have e1 : n = ky := by simpa using h1
+    have e2 : n = kx := by simpa using h2
+    exact absurd (e1.symm.trans e2) hxy
+  | trans h1 _ ih1 ih2 =>
+    rw [ih1 nd]
+    apply ih2
+    exact (h1.map Prod.fst).nodup_iff.mp nd
+
+end Gomjml.MapIter
